@@ -152,6 +152,14 @@ class Bounds:
         if k == "len":
             lo, hi = max(lo, 0), min(hi, ISIZE_MAX)
             base = a[1]
+            if depth < 2:
+                try:
+                    from lib import bytelen as _bytelen
+                    bl0 = _bytelen(self.W, self.ev, base)
+                except Exception:
+                    bl0 = None
+                if isinstance(bl0, int):
+                    lo, hi = max(lo, bl0), min(hi, bl0)
             if isinstance(base, tuple) and base[0] == "field" and isinstance(base[1], tuple) and base[1][0] == "param":
                 f = self.W.prog.fns.get(base[1][1])
                 if f is not None and f.impl_self and (f.impl_self, base[2]) in self.field_min_len:
@@ -218,7 +226,9 @@ class Bounds:
             pass
         elif k == "call":
             nm = values.strip_generics(a[1]).split("::")[-1]
-            if nm == "saturating_sub" and len(a[2]) == 2:
+            if nm in ("trailing_zeros", "leading_zeros", "count_ones", "count_zeros", "ilog2"):
+                lo, hi = max(lo, 0), min(hi, 128)
+            elif nm == "saturating_sub" and len(a[2]) == 2:
                 (xl, xh), (yl, yh) = sub(a[2][0]), sub(a[2][1])
                 lo, hi = max(lo, 0, xl - yh if yh != INF and xl != -INF else 0), min(hi, max(0, xh - yl) if xh != INF and yl != -INF else xh)
             elif nm in ("min",) and len(a[2]) == 2:
